@@ -177,6 +177,7 @@ VP.LOG.clear()
 ms = [ModelFunction(func='verif_probes.probe', name=f'm{i}', arguments={'tag': i}, enabled=(i != 1)) for i in range(4)]
 ms[2] = ModelFunction(func='verif_probes.failing', name='m2', arguments={'tag': 2})
 det = VP.detector()
+det.set_readout(times=[1.0], start_time=0.0)      # the debug capture reads the clock
 VIOLATED, DETAIL = False, ''
 for debug in (False, True):
     VP.LOG.clear()
